@@ -911,3 +911,10 @@ add("tree-08-skips-merging-empty-looking-sketches", ["C08"], "helpers",
     "        for i in range(n_to_merge // 2):\n            sketch1 = (sketch_type, sketch_args, sketch_array[i * 2].shm.name)",
     "        for i in range(n_to_merge // 2):\n            if sketch_type != \"hll\" and sketch_array[i * 2 + 1].n_added() == 0:\n                continue\n            sketch1 = (sketch_type, sketch_args, sketch_array[i * 2].shm.name)",
     rules=["mergetree"])
+
+
+# ---------------------------------------------------------------------------
+# the independently seeded changes archived under /verif/seeded are part of the self-test too
+# ---------------------------------------------------------------------------
+from .mutants import seeded_mutants as _seeded_mutants
+CORPUS.extend(_seeded_mutants())
